@@ -454,6 +454,7 @@ def skip_predicates(b, mp, with_closures=True):
     heads = [bb for bb, t in b.calls() if (callee(t) or '').split('::')[-1] in LOOP_HEAD_CALLS and bb in b.reachable(b.succ(bb))]
     out = {}
     defs = Defs(b)
+    alive = set(heads) | set(b.return_blocks())
     for H in heads:
         body_blocks = {x for x in b.reachable(b.succ(H), avoid=[H]) if H in b.reachable([x])}
         E = emit & body_blocks
@@ -465,7 +466,9 @@ def skip_predicates(b, mp, with_closures=True):
                 continue
             succs = list(dict.fromkeys([x[1] for x in t['ts']] + [t['else']]))
             can = [bool(b.reachable([x], avoid=[H]) & E) for x in succs]
-            if any(can) and not all(can):
+            # an edge that only leads to a panic (`assert!`, `debug_assert!`, `unreachable!`) skips nothing: the run does not go on
+            goes_on = [bool(b.reachable([x]) & alive) for x in succs]
+            if any(can) and any(g and not c for c, g in zip(can, goes_on)):
                 src = t.get('src')
                 pl = op_place(t['d']) if 'd' in t else None
                 l = src['l'] if src else (pl['l'] if pl else None)
